@@ -19,11 +19,22 @@ SUITE_KEY = bytes.fromhex("792eca682b890b31356247f2b04662bff448b6bb19ea1c8ab48da
 
 
 def shards(tier):
-    return 8 if tier == "quick" else 16
+    return 16
 
 
 def required_classes(tier):
-    return ["flip=0,Ry_odd=0", "flip=0,Ry_odd=1", "flip=1,Ry_odd=0", "flip=1,Ry_odd=1", "hash:len!=32", "hash:boundary", "key:boundary", "determinism", "bytes-variants"]
+    return ["flip=0,Ry_odd=0", "flip=0,Ry_odd=1", "flip=1,Ry_odd=0", "flip=1,Ry_odd=1", "hash:len!=32", "hash:boundary", "key:boundary", "determinism", "bytes-variants", "nonce:structured"]
+
+
+def _nonce(dkey, h):
+    import hmac
+    dig = hmac.digest
+    K0, V0 = b"\x00" * 32, b"\x01" * 32
+    k1 = dig(K0, V0 + b"\x00" + dkey + h, "sha256")
+    v1 = dig(k1, V0, "sha256")
+    k2 = dig(k1, v1 + b"\x01" + dkey + h, "sha256")
+    v2 = dig(k2, v1, "sha256")
+    return dig(k2, v2, "sha256")
 
 
 def one(rec, s, d, h, cec=None, tag=""):
@@ -133,6 +144,33 @@ def run(rec):
                 st2, q = call(s.ecdsa_raw_recover, hv, sg)
                 rec.check("B-ecdsa.recover", st2 == "ok" and tuple(q) == MS.from_pt(MS.mul_g(d)), "bytes-variants", "recover with a %s hash differs" % type(hv).__name__,
                           case={"fn": "sign+recover", "d": d, "hash": h}, facts={"fn": "recover", "kind": "type-dependence"})
+    # search (in the MODEL, which defines the nonce) for key/hash pairs whose nonce k has many leading or trailing zero bits or
+    # exceeds N-2^200: internal values of the specified algorithm with a structured bit pattern
+    import hashlib as _hl
+    import hmac as _hm
+    trials = (1 << 22) if quick else (1 << 25)
+    dkey = rng.randrange(1, N).to_bytes(32, "big")
+    best = []
+    K0, V0 = b"\x00" * 32, b"\x01" * 32
+    base_ctr = rng.getrandbits(60)
+    dig = _hm.digest
+    for t in range(trials):
+        h = (base_ctr + t).to_bytes(32, "big")
+        k1 = dig(K0, V0 + b"\x00" + dkey + h, "sha256")
+        v1 = dig(k1, V0, "sha256")
+        k2 = dig(k1, v1 + b"\x01" + dkey + h, "sha256")
+        v2 = dig(k2, v1, "sha256")
+        kk = dig(k2, v2, "sha256")
+        if kk[0] == 0 and kk[1] == 0 and kk[2] < 16 or (kk[31] == 0 and kk[30] == 0 and kk[29] & 15 == 0):
+            best.append(h)
+    rec.event("nonce-search:trials", trials)
+    rec.event("nonce-search:candidates(>=20 zero bits at an end)", len(best))
+    best.sort(key=lambda h_: -max(256 - int.from_bytes(_nonce(dkey, h_), 'big').bit_length(), (int.from_bytes(_nonce(dkey, h_), 'big') & -int.from_bytes(_nonce(dkey, h_), 'big')).bit_length() - 1))
+    rec.event("nonce-search:candidates(>=24 zero bits at an end)", sum(1 for h_ in best if _nonce(dkey, h_)[:3] == b'\x00\x00\x00' or _nonce(dkey, h_)[-3:] == b'\x00\x00\x00'))
+    for h in best[:40]:
+        rec.case("nonce:structured", ("nonce", dkey, h), sample={"fn": "ecdsa_raw_sign", "what": "RFC 6979 nonce with >= 20 leading or trailing zero bits (found by searching with the model)"})
+        one(rec, s, int.from_bytes(dkey, "big"), h, None, "nonce:structured")
+    rec.case("nonce:structured", None, nontrivial=False)
     done = []
     for _ in range(2600 if quick else 250000):
         i += 1
